@@ -10,6 +10,7 @@ import (
 	"fmt"
 	"os"
 	"path/filepath"
+	"runtime/debug"
 	"sort"
 	"strconv"
 	"strings"
@@ -255,11 +256,40 @@ type TB interface {
 // Check runs one case through f with write-ahead, accounting and failure persistence.
 func (r *Recorder) Check(t TB, c any, f func() Outcome) {
 	r.Begin(c)
-	o := f()
+	var o Outcome
+	func() {
+		defer func() {
+			if p := recover(); p != nil {
+				stack := string(debug.Stack())
+				if !strings.Contains(stack, "github.com/google/inverting-proxy") {
+					panic(p) // a bug of the harness itself: not a property outcome
+				}
+				o.Err = fmt.Errorf("panic in the code under test: %v\n%s", p, trimStack(stack))
+			}
+		}()
+		o = f()
+	}()
 	r.Done(c, o)
 	if o.Err != nil {
 		t.Fatalf("property %s violated: %v", r.st.Property, o.Err)
 	}
+}
+
+func trimStack(s string) string {
+	lines := strings.Split(s, "\n")
+	var keep []string
+	for i, l := range lines {
+		if strings.Contains(l, "github.com/google/inverting-proxy") {
+			keep = append(keep, strings.TrimSpace(l))
+			if i+1 < len(lines) {
+				keep = append(keep, "  "+strings.TrimSpace(lines[i+1]))
+			}
+		}
+		if len(keep) >= 8 {
+			break
+		}
+	}
+	return strings.Join(keep, "\n")
 }
 
 // Replay support ------------------------------------------------------------
